@@ -220,7 +220,8 @@ class LogFormatter(logging.Formatter):
             # each line separately so that non-utf8 bytes don't cause
             # all the newlines to turn into '\n'.
             lines = [formatted.rstrip()]
-            lines.extend(_safe_unicode(ln) for ln in record.exc_text.split("\n"))
+            sep = b"\n" if isinstance(record.exc_text, bytes) else "\n"
+            lines.extend(_safe_unicode(ln) for ln in record.exc_text.split(sep))
             formatted = "\n".join(lines)
         return formatted.replace("\n", "\n    ")
 
